@@ -9,7 +9,7 @@ use std::collections::BTreeMap;
 use std::process::{Command, Stdio};
 use std::time::Instant;
 
-const RULE: &str = "case = one API trace (12-16 operations) drawn from {parse text (plain / fancy spelling), build graph through the node API, edit through nodes_mut, freeze ok, freeze on each error exit (empty graph, dangling key reachable from the root, dangling key in an orphan node after earlier nodes were initialised, unnamed cycle, JSON error), move the schema (Box, Vec that reallocates, Arc, swap), serialize + owned decode, borrowed decode whose result outlives the schema, container Reader over slice / BufReader(1..9) / chunked reader for null, deflate, snappy (+ bzip2, xz, zstandard outside Miri) reading n values, moving the reader in the middle of a block (out of a Box that is freed, through a reallocating Vec, swapped with another mid-block reader) and reading on, the same inside a block larger than the reader's internal 8 KiB buffer so that the block's decompressor is still live when the reader moves, a source that panics at some call (panic caught, reader used again, then dropped), cloning reader.schema() and dropping reader / handle in both orders and using the handle afterwards, Debug formatting, two scoped threads using &Schema / Arc<Schema> concurrently with results compared to the sequential ones, three threads making the very FIRST use of a freshly frozen schema concurrently, dropping everything in random order}; every trace runs under Miri (UB + data-race interpreter), under AddressSanitizer and under ThreadSanitizer (std rebuilt with the sanitizer, all six codecs); distinct = distinct trace seeds executed, non-trivial = every trace (each performs at least parse/build + drop)";
+const RULE: &str = "case = one API trace (12-16 operations) drawn from {parse text (plain / fancy spelling), build graph through the node API, edit through nodes_mut, freeze ok, freeze on each error exit (empty graph, dangling key reachable from the root, dangling key in an orphan node after earlier nodes were initialised, unnamed cycle, JSON error), move the schema (Box, Vec that reallocates, Arc, swap), serialize + owned decode, borrowed decode whose result outlives the schema, container Reader over slice / BufReader(1..9) / chunked reader for null, deflate, snappy (+ bzip2, xz, zstandard outside Miri) reading n values, moving the reader in the middle of a block (out of a Box that is freed, through a reallocating Vec, swapped with another mid-block reader) and reading on, the same inside a block larger than the reader's internal 8 KiB buffer so that the block's decompressor is still live when the reader moves, a source that panics at some call (panic caught, reader used again, then dropped), values borrowed from container blocks (null / deflate / snappy) kept across blocks and past the reader, cloning reader.schema() and dropping reader / handle in both orders and using the handle afterwards, Debug formatting, two scoped threads using &Schema / Arc<Schema> concurrently with results compared to the sequential ones, three threads making the very FIRST use of a freshly frozen schema concurrently, dropping everything in random order}; every trace runs under Miri (UB + data-race interpreter), under AddressSanitizer and under ThreadSanitizer (std rebuilt with the sanitizer, all six codecs); distinct = distinct trace seeds executed, non-trivial = every trace (each performs at least parse/build + drop)";
 
 struct Stage {
 	name: &'static str,
@@ -452,6 +452,7 @@ pub fn run(thorough: bool, seed: u64) -> i32 {
 			"asan:op:reader-moved-in-big-block:zstandard",
 			"asan:op:reader-moved-in-big-block:xz",
 			"asan:op:reader-source-panicked",
+			"asan:op:borrowed-from-container:null",
 			"miri-stacked-borrows:op:reader-source-panicked",
 			"miri-stacked-borrows:op:reader-moved-mid-block:deflate",
 			"traces:tsan",
